@@ -22,7 +22,8 @@ def _every(g):
 
 
 def _returns_filemap(g):
-    return "::FileMap" in (g.sig_output or "")
+    """constructors of the FileMap, and functions that hand out the SourceWriter prepared from one"""
+    return "::FileMap" in (g.sig_output or "") or (g.sig_output or "").endswith("::SourceWriter")
 
 
 def _not_utf16_len(g):
@@ -130,6 +131,36 @@ def int_of(P, e, depth=0):
 
 
 # ---------------------------------------------------------------------------------------------------- vocabulary by role
+def base_assigns(V, fn):
+    """(delta base, assigned expression, node index) for every update of a delta base in fn: `self.b = e`, `self.rec.b = e`, or the
+    whole record at once — `self.rec = Rec { b: e, .. }` (one update per field written in the literal; a `..rest` keeps the
+    others) or `self.rec = <anything else>` (every base, from that expression)"""
+    for i, (n, _) in enumerate(fn.nodes()):
+        if n.get("k") != "Assign":
+            continue
+        l = strip(n["l"])
+        if not isinstance(l, dict) or l.get("k") != "Field":
+            continue
+        if norm(l.get("adt")) == V.base_adt and l["field"] in V.bases:
+            yield l["field"], n["r"], i
+        elif V.base_holder and norm(l.get("adt")) == MW and l["field"] == V.base_holder:
+            r = strip(n["r"])
+            if isinstance(r, dict) and r.get("k") == "Struct" and "rest" not in r and norm(r.get("adt", "")) == V.base_adt:
+                for f_ in r["fields"]:
+                    if f_["name"] in V.bases:
+                        yield f_["name"], f_["e"], i
+                if r.get("base") is None:
+                    continue
+            else:
+                for b in V.bases:
+                    yield b, n["r"], i
+
+
+def is_base(V, e):
+    e = strip(e)
+    return e["field"] if isinstance(e, dict) and e.get("k") == "Field" and norm(e.get("adt")) == V.base_adt and e["field"] in V.bases else None
+
+
 class Vocab:
     """The names this property talks about, located by what the code does with them rather than by how they are spelled, so that a
     consistent renaming of the writer's fields and methods changes nothing.  The two writer *types* and the SourceMapWriter trait
@@ -174,10 +205,17 @@ class Vocab:
         sm = [g for g in own if assigns(g, self.f_mapper) and len(g.params) == 2]
         self.set_mapper = sm[0] if len(sm) == 1 else P.fn(SW + "::set_file_index_mapper")
         # --- MappingWriter: the delta bases are its counters; add_entry is the method write_for drives
+        # (they may be grouped in one record-typed field of the writer: `last: Reference { .. }`)
+        self.base_adt, self.base_holder = MW, None
         self.bases = [f for f, t in mw_types.items() if t == "usize"]
+        if len(self.bases) < 2:
+            recs = [(f, P.adts[t]) for f, t in mw_types.items() if t in P.adts and P.adts[t].kind == "Struct"
+                    and sum(1 for x in P.adts[t].field_types().values() if x == "usize") >= 2]
+            if len(recs) == 1:
+                self.base_holder, self.base_adt = recs[0][0], recs[0][1].path
+                self.bases = [f for f, t in recs[0][1].field_types().items() if t == "usize"]
         scope = scope_fns(P, self.write_for)
-        ae = [g for g in scope if g.self_adt == MW and not g.derived and not g.impl_trait
-              and any(n.get("k") == "Assign" and n["l"].get("k") == "Field" and norm(n["l"].get("adt")) == MW and n["l"]["field"] in self.bases for n in g.walk())]
+        ae = [g for g in scope if g.self_adt == MW and not g.derived and not g.impl_trait and any(True for _ in base_assigns(self, g))]
         ae = [g for g in ae if not any(g.path in P.callees_of(h)[0] for h in ae if h is not g)] or ae
         self.add_entry = ae[0] if len(ae) == 1 else P.fn(MW + "::add_entry")
         self.name_fns = {g.path for g in P.fns.values() if (g.self_adt or "").endswith("::NameMapper") and g.sig_output == "usize"}
@@ -202,6 +240,7 @@ _VOCAB = {}
 def vocab(P):
     if id(P) not in _VOCAB:
         _VOCAB[id(P)] = Vocab(P)
+        _STATE_ADTS.add(_VOCAB[id(P)].base_adt)
     return _VOCAB[id(P)]
 
 
@@ -469,6 +508,8 @@ class Comp:
         elif k in ("Binding", "Wild", "TupleStruct", "PatExpr", "Tuple", "Or", "Ref", "Range", "Slice") or (k == "Struct" and "rest" in e):
             return (atoms, True)
         parts = [(atoms, True)]
+        if k in ("Call", "MethodCall") and "inl" in e:
+            parts.extend(self.comp(r, (), depth + 1) for r in self._returns(e))   # what the same-crate helper computes its result from
         for key, v in e.items():
             if key == "inl" or not isinstance(v, (dict, list)):
                 continue
@@ -515,15 +556,12 @@ def entry_roles(P):
     f = inl(P, V.add_entry)
     C = Comp(P, f)
 
-    def base_of(e):
-        e = strip(e)
-        return e["field"] if e.get("k") == "Field" and norm(e.get("adt")) == MW and e["field"] in V.bases else None
     found = {}
+    for b, e, _ in base_assigns(V, f):
+        found.setdefault(b, []).append(C.access(e))
     for n in f.walk():
-        if n.get("k") == "Assign" and base_of(n["l"]):
-            found.setdefault(base_of(n["l"]), []).append(C.access(n["r"]))
-        elif n.get("k") == "Binary" and n.get("op") == "-" and base_of(C.resolve(n["r"])):
-            found.setdefault(base_of(C.resolve(n["r"])), []).append(C.access(n["l"]))
+        if n.get("k") == "Binary" and n.get("op") == "-" and is_base(V, C.resolve(n["r"])):
+            found.setdefault(is_base(V, C.resolve(n["r"])), []).append(C.access(n["l"]))
     return {b: v[0] for b, v in found.items() if len(set(v)) == 1 and v[0] is not None}
 
 
@@ -542,7 +580,10 @@ def add_entry_calls(P, fn):
 # ------------------------------------------------------------------------------------------------------------- rules
 def quantity(atoms):
     """the input quantity an expression of add_entry stands for: its non-self parameters and the fields read from them"""
-    return frozenset(a for a in atoms if (a[0] == "param" and a[1] != "self") or (a[0] == "field" and a[1] != MW) or a[0] == "tuplefield")
+    return frozenset(a for a in atoms if (a[0] == "param" and a[1] != "self") or (a[0] == "field" and a[1] != MW and a[1] not in _STATE_ADTS) or a[0] == "tuplefield")
+
+
+_STATE_ADTS = set()      # record types that hold the mapping writer's delta bases (filled by vocab())
 
 
 def qname(q):
@@ -562,7 +603,7 @@ def r06a(P, R):
     bases = V.bases
 
     def last_fields(atoms):
-        return sorted({a[2] for a in atoms if a[0] == "field" and a[1] == MW and a[2] in bases})
+        return sorted({a[2] for a in atoms if a[0] == "field" and a[1] == V.base_adt and a[2] in bases})
     deltas = {}   # last field -> [(quantity, ctx, op)]
     for i, (n, _) in enumerate(acc):
         k = n.get("k")
@@ -579,11 +620,10 @@ def r06a(P, R):
         elif op == "!=" and len(lf) + len(rf) == 1:
             deltas.setdefault((lf or rf)[0], []).append((quantity(ra if lf else la), cond_ctx(f, i), "!="))
     assigns = {}
-    for i, (n, _) in enumerate(acc):
-        if n.get("k") == "Assign" and n["l"].get("k") == "Field" and norm(n["l"].get("adt")) == MW and n["l"]["field"] in bases:
-            assigns.setdefault(n["l"]["field"], []).append((quantity(pv.atoms(n["r"])), cond_ctx(f, i)))
+    for b_, e_, i in base_assigns(V, f):
+        assigns.setdefault(b_, []).append((quantity(pv.atoms(e_)), cond_ctx(f, i)))
     R.floor("R06-a", "delta bases (last_* fields)", len(bases), 6)
-    reads = {n["field"] for n in f.walk() if n.get("k") == "Field" and norm(n.get("adt")) == MW}
+    reads = {n["field"] for n in f.walk() if n.get("k") == "Field" and norm(n.get("adt")) == V.base_adt}
     rebuilt = any(n.get("k") == "Struct" and "rest" not in n and norm(n.get("adt", "")) == MW for n in f.walk())
     qb = {}
     for b in bases:
@@ -709,6 +749,8 @@ def restart_rule(P, R):
             n += 1
             whole = any(x.get("k") == "Assign" and strip(x["l"]).get("k") == "Path" and strip(x["l"]).get("name") == "self" for x in mi.walk())
             assigned = {own(x["l"]) for x in mi.walk() if x.get("k") in ("Assign", "AssignOp")}
+            if T == MW:
+                assigned |= {b_ for b_, _, _ in base_assigns(V, mi)}
             missing = [] if whole else [b for b in group if b not in assigned]
             R.check("R06-a", "restart:%s" % short(m.path), not missing, "restarting the buffer resets every %s" % what,
                     "%s empties the writer's buffer in place (what follows is a new mappings string / file, decoded from the origin) and resets "
@@ -738,8 +780,14 @@ def r06b(P, R):
             "another operation file) gets source index usize::MAX as isize = -1", loc=wf.loc(),
             detail={"sentinel_sites": len(produces)})
     # the consumer that builds `sources` filters the same sentinel: some function run_generate reaches in its crate compares an
-    # index with it
+    # index with it — when the sentinel is stored in the FileMap's table at all (it may be introduced only where the table is handed
+    # to the SourceWriter, the table itself marking non-sources another way)
     w = P.fn("nitrogql_cli::generate::write_file_and_sourcemap")
+    rg0 = P.fn("nitrogql_cli::generate::run_generate")
+    in_table = [n for g in [rg0] + [g for g in scope_fns(P, rg0) if "::FileMap" in (g.sig_output or "")] for n in g.walk() if is_sentinel(P, n)]
+    if not in_table:
+        R.holds("R06-b", "sources-filter-sentinel", "the index table stores no sentinel (it is introduced at the SourceWriter boundary only)", loc=w.loc())
+        return
     tests = [n for g in scope_fns(P, P.fn("nitrogql_cli::generate::run_generate")) + scope_fns(P, w) for n in g.walk()
              if (n.get("k") == "Binary" and n.get("op") in ("==", "!=") and (is_sentinel(P, n["l"]) or is_sentinel(P, n["r"])))
              or (n.get("k") == "PatExpr" and is_sentinel(P, n))]
@@ -891,9 +939,8 @@ def segment_roles(P):
     f = inl(P, V.add_entry)
     pv = Prov(f, field_assign=False)
     qb = {}
-    for n in f.walk():
-        if n.get("k") == "Assign" and n["l"].get("k") == "Field" and norm(n["l"].get("adt")) == MW and n["l"]["field"] in V.bases:
-            qb.setdefault(n["l"]["field"], set()).add(quantity(pv.atoms(n["r"])))
+    for b_, e_, _ in base_assigns(V, f):
+        qb.setdefault(b_, set()).add(quantity(pv.atoms(e_)))
     qb = {b: list(v)[0] for b, v in qb.items() if len(v) == 1}
     order, problem = vlq_order(P, f, pv, qb)
     if problem or len(order) != 5 or any(len(o) != 1 for o in order) or len({o[0] for o in order}) != 5:
@@ -958,7 +1005,21 @@ def r06d(P, R):
             n += 1
             key = "decl:%s:%s#%d" % (short(f.path), lit.strip(), sum(1 for e in em[:pos] if e[0] and e[2] == lit))
             if nxt is None:
-                R.undecided("R06-d", key, "identifier after `%s` is written by a callee" % lit, loc=f.loc())
+                # the keyword is the last thing this function writes: the identifier is written by whoever calls it
+                after = []
+                for h in scope:
+                    if h is not f and f.path in P.callees_of(h)[0]:
+                        eh = emission_through(inl(P, h))
+                        after += [(h, eh[q + 1] if q + 1 < len(eh) else None) for q, e_ in enumerate(eh)
+                                  if not e_[0] and e_[2] == lit and e_[3].get("s") == node.get("s")]
+                if not after or any(x is None for _, x in after):
+                    R.undecided("R06-d", key, "identifier after `%s` is written by a caller that could not be followed" % lit, loc=f.loc())
+                    continue
+                n += len(after) - 1
+                bad = [h for h, x in after if not (x[1] == "write_for" and x[2] is None)]
+                R.check("R06-d", key, not bad, "identifier after `%s` is written with write_for by every caller" % lit.strip(),
+                        "%s writes the identifier after `%s` (emitted by %s) without write_for: the declaration carries no segment, go-to-definition no "
+                        "longer lands on the GraphQL source" % (", ".join(sorted({h.path for h in bad})), lit.strip(), short(f.path)), loc=f.loc())
                 continue
             ok = nxt[1] == "write_for" and nxt[2] is None
             R.check("R06-d", key, ok, "identifier after `%s` is written with write_for" % lit.strip(),
@@ -1015,6 +1076,19 @@ def r06e(P, R):
             R.undecided("R06-e", "mapper-set:%d" % j, "the SourceWriter whose buffers are written here could not be identified", loc=rg.loc())
             continue
         mine = [m for m in setm if locals_of_type(m["recv"], SW) & wl]
+        # ... or the writer comes out of a function that installs the mapper before handing it out
+        made = [C.single[l] for l in wl if l in C.single and isinstance(C.single[l], dict) and "inl" in strip(C.single[l])]
+        inner = [m for m in setm for mk in made if templates_contains(strip(mk)["inl"], m)]
+        if not mine and inner:
+            R.holds("R06-e", "mapper-set:%d" % j, "the output's SourceWriter is created with its file-index mapper", loc=rg.loc())
+            mk = [strip(x) for x in made]
+            ml = set().union(*[locals_of_type(a_, FM) for x in mk for a_ in ([x["recv"]] if x.get("k") == "MethodCall" else []) + x["args"]])
+            if not fms or not ml:
+                R.undecided("R06-e", "mapper-same-filemap:%d" % j, "the FileMap behind the mapper or behind `sources` is not a plain local", loc=rg.loc())
+            else:
+                R.check("R06-e", "mapper-same-filemap:%d" % j, bool(ml & fms), "mapper and `sources` come from the same FileMap",
+                        "the writer's index mapper is taken from another FileMap than the one `sources` is computed from", loc=rg.loc())
+            continue
         if not R.check("R06-e", "mapper-set:%d" % j, bool(mine), "the output's SourceWriter received a file-index mapper",
                        "a source-mapped output is written from a SourceWriter on which %s is never called: its segments "
                        "carry raw file-store indices, not positions in `sources`" % vocab(P).set_mapper.name, loc=rg.loc()):
@@ -1048,14 +1122,35 @@ def r06e(P, R):
             R.holds("R06-e", "filemap-same-store:%d" % j, "indices are computed by iterating the file store", loc=rg.loc())
         else:
             R.undecided("R06-e", "filemap-same-store:%d" % j, "the index table is not computed from FileStore::iter(); how it enumerates the files is not decided", loc=rg.loc())
-        # index table: Schema -> own index (schema files come first, so position == index); the operation file -> schema_len(); else sentinel
-        ifs = [x for x in subnodes(fi) if x.get("k") == "If"]
-        if not ifs:
-            R.undecided("R06-e", "index-table:%d" % j, "the index table is not written as an if/else chain", loc=rg.loc())
+        # index table: Schema -> own index (schema files come first, so position == index); the operation file -> schema_len(); else
+        # "not a source" (the sentinel, or None in a table of options) — written as an if/else chain or as a match on the kind
+        def locals_in(es):
+            return {x["local"] for e_ in es for x in subnodes(e_) if x.get("k") == "Path" and "local" in x}
+
+        def unwrap(v):
+            v = branch_val(v)
+            while isinstance(v, dict) and v.get("k") == "Call" and norm(v.get("callee") or "") in OPTION_LIKE and len(v["args"]) == 1:
+                v = branch_val(v["args"][0])
+            return v
+
+        def absent(v):
+            return is_sentinel(P, v) or (isinstance(v, dict) and v.get("k") == "Path" and norm(v.get("def") or "").endswith("Option::None"))
+        ifs = [x for x in subnodes(fi) if x.get("k") == "If" and not x.get("x")]
+        kms = [x for x in subnodes(fi) if x.get("k") == "Match" and x.get("src") == "Normal" and "FileKind" in norm(str(x["scrut"].get("t", "")))]
+        rows, default = [], None     # rows: (tests Schema?, locals its condition reads, value)
+        if ifs:
+            rows = [(mentions_schema(x["cond"]), locals_in([x["cond"]]), unwrap(x["then"])) for x in ifs]
+            default = unwrap(ifs[-1]["else"]) if ifs[-1].get("else") else None
+        elif len(kms) == 1:
+            for arm in kms[0]["arms"]:
+                sch = mentions_schema(arm["pat"])
+                if "guard" in arm or sch:
+                    rows.append((sch, locals_in([kms[0]["scrut"]] + ([arm["guard"]] if "guard" in arm else [])), unwrap(arm["body"])))
+                else:
+                    default = unwrap(arm["body"])
+        else:
+            R.undecided("R06-e", "index-table:%d" % j, "the index table is neither an if/else chain nor a match on the file kind", loc=rg.loc())
             continue
-        rows = [(x, branch_val(x["then"])) for x in ifs]
-        e = ifs[-1].get("else")
-        last_else = branch_val(e) if e else None
         first_bindings, kind_locals = set(), set()
         for cl in subnodes(fi):
             if cl.get("k") == "Closure" and cl["params"]:
@@ -1063,34 +1158,32 @@ def r06e(P, R):
                 if bs:
                     first_bindings.add(bs[0]["local"])
                 kind_locals |= {b["local"] for b in bs if "FileKind" in norm(b.get("t", ""))}
-
-        def cond_locals(ifn):
-            return {x["local"] for x in subnodes(ifn["cond"]) if x.get("k") == "Path" and "local" in x}
-        schema_rows = [(x, v) for x, v in rows if mentions_schema(x["cond"])]
+        schema_rows = [r_ for r_ in rows if r_[0]]
         if not schema_rows or not first_bindings or not kind_locals:
             R.undecided("R06-e", "index-table:schema:%d" % j, "no row of the index table tests for FileKind::Schema in a recognised way", loc=rg.loc())
         else:
-            ok_schema = any(v.get("k") == "Path" and v.get("local") in first_bindings and cond_locals(x) and cond_locals(x) <= kind_locals
-                            for x, v in schema_rows)
+            ok_schema = any(v.get("k") == "Path" and v.get("local") in first_bindings and ls and ls <= kind_locals for _, ls, v in schema_rows)
             R.check("R06-e", "index-table:schema:%d" % j, ok_schema, "schema file k -> sources[k]",
                     "the row `kind == Schema -> idx` of the index table also admits other files or does not yield the file's own index (only "
                     "schema files, which come first in the store, may keep their own index)", loc=rg.loc())
+
+        def to_schema_len(v):
+            return isinstance(v, dict) and v.get("k") == "MethodCall" and (call_name(v) or "").endswith("FileStore::schema_len")
         uses_current = any(c_[0] == "loop" for c_ in enclosing_contexts(rg, i))
         if uses_current:
-            R.check("R06-e", "index-table:operation-row:%d" % j, any(v.get("k") == "MethodCall" and (call_name(v) or "").endswith("FileStore::schema_len") for _, v in rows),
+            R.check("R06-e", "index-table:operation-row:%d" % j, any(to_schema_len(v) for _, _, v in rows),
                     "the operation file has its own row -> schema_len()",
                     "the operation file being generated has no row mapping it to schema_len(): it keeps its raw store index, which is past "
                     "the end of `sources` for every operation file but the first", loc=rg.loc())
-        if last_else is None or not last_else:
-            R.undecided("R06-e", "index-table:other:%d" % j, "the chain has no final else", loc=rg.loc())
+        if default is None or not default:
+            R.undecided("R06-e", "index-table:other:%d" % j, "the table has no final else / catch-all row", loc=rg.loc())
         else:
-            R.check("R06-e", "index-table:other:%d" % j, is_sentinel(P, last_else), "files that are not sources -> sentinel",
+            R.check("R06-e", "index-table:other:%d" % j, absent(default), "files that are not sources -> not a source",
                     "other files are not mapped to the sentinel", loc=rg.loc())
-        for x, v in rows:
-            if mentions_schema(x["cond"]):
+        for sch, _, v in rows:
+            if sch:
                 continue
-            ok = v.get("k") == "MethodCall" and (call_name(v) or "").endswith("FileStore::schema_len")
-            R.check("R06-e", "index-table:operation:%d" % j, ok, "the operation file -> sources[schema_len] (first slot after the schema files)",
+            R.check("R06-e", "index-table:operation:%d" % j, to_schema_len(v), "the operation file -> sources[schema_len] (first slot after the schema files)",
                     "the operation file being generated is mapped to `%s`; `sources` lists the schema files followed by this file, so its "
                     "slot is schema_len()" % (v.get("name") or call_name(v) or v.get("k")), loc=rg.loc())
     # a FileMap is never updated in place (a slot set for one output would stay set for the next), and the map used inside the
@@ -1161,9 +1254,9 @@ def r06e(P, R):
         while todo:
             for y in subnodes(todo.pop()):
                 flow.append(y)
-                if y.get("k") == "Path" and y.get("local") in CW.single and y["local"] not in seen:
+                if y.get("k") == "Path" and "local" in y and y["local"] not in seen and (y["local"] in CW.single or y["local"] in CW.patb):
                     seen.add(y["local"])
-                    todo.append(CW.single[y["local"]])
+                    todo.append(CW.single[y["local"]] if y["local"] in CW.single else CW.patb[y["local"]][0])
         zips = [y for y in flow if y.get("k") == "MethodCall" and y["method"] == "zip"]
         bad = sorted({y["method"] for y in flow if y.get("k") == "MethodCall" and y["method"] in ("rev", "sorted", "sort_by", "sort", "skip", "take", "dedup", "unique",
                                                                                                     "sort_by_key", "sort_unstable", "reverse", "step_by")})
@@ -1254,7 +1347,9 @@ def r06f(P, R):
     if not cols or any(r is None for r in cols):
         R.undecided("R06-f", "closing-segment-units", "the original column handed to add_entry could not be traced at every call", loc=wf.loc())
     else:
-        closing = [r for r in cols if ("op", "+") in r[0]]
+        # the closing segment is the one whose column adds something the others do not (a helper may add a constant 0 for them)
+        common = set.intersection(*[set(r[0]) for r in cols])
+        closing = [r for r in cols if ("op", "+") in r[0] and (len(cols) == 1 or any(a[0] not in ("lit", "op") for a in set(r[0]) - common))]
         if len(closing) == 1:
             R.check("R06-f", "closing-segment-units", has_call(closing[0][0], V.utf16_len.path), "range-closing segment = original column + utf16_len(name)",
                     "the range-closing segment is not `original column + utf16_len(name)`", loc=wf.loc())
